@@ -50,3 +50,8 @@ chk("C11", "model_checking",
     "(determinism over 8 serializations, canonical bucket/entry order, byte count, round trip, lookups, iteration); flattened vs regenerated indexes are compared on every finished file of the Store graphs.",
     "Exhaustive within: load sequences <= 3 (4) over 10 records. " + TB,
     "TLA+ canonical-form spec + TLC load orders replayed on the index codecs", "DESIGN.md §3 C11")
+chk("C10", "model_checking",
+    "Transform.tla models wrap / extract / replace-roots as actions on an abstract file; TLC checks payload invariance and extract(wrap(x)) = x over the complete bounded behaviour tree, and every "
+    "behaviour is replayed on real files with all bytes compared against the reference encoding after every step (and unchanged bytes on refusal).",
+    "Exhaustive within: files <= 2 sections over 6 blocks, 4 root lists, 5 containers, 11 operations, behaviours of 2 (3) steps. " + TB,
+    "TLA+ action spec + TLC behaviours replayed on real files with byte comparison", "DESIGN.md §3 C10")
